@@ -124,8 +124,8 @@ func TestC09Pairs(t *testing.T) {
 // TestC09 draws larger random expressions (with offsets and @ on the selectors).
 func TestC09(t *testing.T) {
 	runProp(t, "C09", func(t *rapid.T) *core.Case {
-		p := gen.Profile{MaxDepth: 3, Metrics: []string{"m", "m", "n"}}
-		c := drawGeneral(t, p, gen.WindowOpts{}, gen.DataOpts{Specials: true, MaxSeries: 12})
+		p := gen.Profile{MaxDepth: 3, Metrics: []string{"m", "m", "n"}, Nameless: true}
+		c := drawGeneral(t, p, gen.WindowOpts{}, gen.DataOpts{Specials: true, MaxSeries: 12, Twins: true})
 		return c
 	})
 }
